@@ -150,7 +150,7 @@ def ref_ops(frame, mdl):
 def _ref_ops(frame, mdl):
     if True:
         e = rc.dec_encap(frame)
-        if e['command'] != rc.CMD['send_rr_data'] or e['status'] != 0:
+        if e['command'] != rc.CMD['send_rr_data']:        # status / options / context of a request header are free fields
             return ('rejected', 'not-send-rr-data')
         sd = rc.dec_send_data(e['payload'])
         items = sd['items']
@@ -162,20 +162,31 @@ def _ref_ops(frame, mdl):
             msg = us['message']
         req = rc.dec_mr_request(msg)
         if req['service'] == 0x0A:
+            # the bundle's own framing (count, offset table) must be consistent; then every member is its own request:
+            # a member that is not a well-formed request is judged like a malformed single request (it may change nothing)
             members = rc.dec_multiple_body(req['data'])
-            return ('ops', [spell(rc.dec_mr_request(m), mdl) for m in members], True)
+            ops = []
+            for m in members:
+                try:
+                    ops.append(spell(rc.dec_mr_request(m), mdl))
+                except (rc.RefDecodeError, struct.error, IndexError, UnicodeDecodeError) as exc:
+                    ops.append({'svc': None, 'malformed': True, 'why': reason_category(str(exc))})
+            return ('ops', ops, True)
         return ('ops', [spell(req, mdl)], False)
 
 
 def reason_category(text):
     """Root-cause category = the first structural rule the reference decoder found violated."""
     table = (
+        # the EPATH size byte disagrees with the segments that follow it (too large, or cutting a segment)
         ('EPATH body truncated', 'epath-size-exceeds-content'), ('EPATH size missing', 'epath-size-exceeds-content'),
-        ('EPATH pad missing', 'epath-size-exceeds-content'),
+        ('EPATH pad missing', 'epath-size-exceeds-content'), ('unsupported segment type', 'epath-size-exceeds-content'),
+        ('reserved logical format', 'epath-size-exceeds-content'), ('symbolic segment', 'epath-size-exceeds-content'),
+        ('logical segment', 'epath-size-exceeds-content'), ('link address truncated', 'epath-size-exceeds-content'),
+        ('link truncated', 'epath-size-exceeds-content'), ('extended port truncated', 'epath-size-exceeds-content'),
+        ('port segment', 'epath-size-exceeds-content'), ('port 0 is reserved', 'epath-size-exceeds-content'),
         ('trailing bytes after Unconnected Send route path', 'unconnected-send-trailing-bytes'),
         ('Unconnected Send message truncated', 'unconnected-send-length'), ('Unconnected Send header truncated', 'unconnected-send-length'),
-        ('symbolic segment', 'path-segment-truncated'), ('logical segment', 'path-segment-truncated'), ('link', 'path-segment-truncated'),
-        ('port', 'path-segment-truncated'), ('unsupported segment type', 'path-segment-unknown-type'), ('reserved logical format', 'path-segment-unknown-type'),
         ('CPF item data truncated', 'cpf-item-length'), ('CPF item header truncated', 'cpf-item-length'), ('trailing bytes after CPF', 'cpf-item-length'),
         ('CPF count missing', 'cpf-item-length'), ('multiple:', 'bundle-offset-table'), ('request shorter', 'short-request'),
         ('send data header', 'send-data-header'), ('reply bit set in request', 'reply-bit-in-request'),
@@ -221,6 +232,10 @@ def spell(req, mdl):
         if not names:
             return {'svc': svc, 'unknown': True}
         op.update(form='num', tag=names[0])
+    elif len(segs) >= 2 and 'class' in segs[0] and 'instance' in segs[1]:
+        # class/instance without an attribute segment: the simulator documents a default attribute 1 for tag services and
+        # ignores what follows; the statement says nothing about such paths -> not judged (model re-synchronised)
+        return {'svc': svc, 'path_unspecified': True}
     else:
         return {'svc': svc, 'unknown': True}
     op['elem'] = elem
@@ -258,10 +273,26 @@ def is_write(op):
 # generators
 
 
+@st.composite
+def inconsistent_write(draw):
+    """A write whose element count / offset fields disagree with the data it carries (more or fewer values)."""
+    op = draw(tagcheck.op_strategy(SPECS, 'valid').filter(lambda o: o['svc'] in ('write_tag', 'write_frag') and len(o.get('values', [])) >= 2))
+    op = dict(op)
+    how = draw(st.sampled_from(['count-less', 'count-less', 'count-more', 'offset-shift']))
+    if how == 'count-less':
+        op['count'] = max(1, op['count'] - draw(st.integers(1, 2)))
+    elif how == 'count-more':
+        op['count'] = op['count'] + draw(st.integers(1, 2))
+    elif op['svc'] == 'write_frag':
+        op['offset'] = op.get('offset', 0) + rc.tsize(op['type']) if op['type'] in M.FIXED_TYPES else op.get('offset', 0)
+    return op
+
+
 def valid_frames_strategy():
     """One valid frame description: ('register',) | ('op', op) | ('bundle', [ops]) | ('list', cmd) | ('unregister',)"""
     op = tagcheck.op_strategy(SPECS, 'valid')
     return st.one_of(
+        st.tuples(st.just('op'), inconsistent_write()),
         st.tuples(st.just('op'), op), st.tuples(st.just('op'), op), st.tuples(st.just('op'), tagcheck.op_strategy(SPECS, 'edge')),
         st.tuples(st.just('bundle'), st.lists(op, min_size=1, max_size=4)),
         st.tuples(st.just('list'), st.sampled_from([0x0004, 0x0063, 0x0064, 0x0001])),
@@ -444,8 +475,8 @@ def _pred(case, stats):
             if ref[0] == 'rejected':
                 classes.add('frame:rejected-by-reference:' + okind)
                 if after != before:
-                    how = 'executed-malformed-write' if (rpy is not None and lenient_write_success(rpy)) else 'tags-altered-by-request-answered-with-failure'
-                    stats.fail('stream', '%s:%s' % (how, ref[1]), case,
+                    # signature = the structural rule the frame violates (root cause), whatever the reply said
+                    stats.fail('stream', 'malformed-request-altered-tags:%s' % (ref[1],), case,
                                observed={'frame': frame.hex()[:400], 'reference_decoder': ref[1], 'outcome': outcome,
                                          'changed': [n for n in after if after[n] != before[n]]},
                                expected='tags change only through complete, well-formed write requests')
@@ -454,6 +485,7 @@ def _pred(case, stats):
                 return
             _, ops, bundled = ref
             member_replies = None
+            whole_failed = True
             if rpy is not None:
                 try:
                     e = rc.dec_encap(rpy)
@@ -461,42 +493,76 @@ def _pred(case, stats):
                         _, m = rc.dec_rr_reply(rpy)
                         mr = rc.dec_mr_reply(m)
                         if bundled:
-                            member_replies = [rc.dec_mr_reply(x) for x in rc.dec_multiple_body(mr['data'])] if mr['status'] == 0 else None
+                            if mr['status'] == 0:
+                                member_replies = [rc.dec_mr_reply(x) for x in rc.dec_multiple_body(mr['data'])]
+                                whole_failed = False
                         else:
                             member_replies = [mr]
+                            whole_failed = False
                 except rc.RefDecodeError:
                     member_replies = None
-            judged = True
-            for i, op in enumerate(ops):
-                if not is_write(op):
-                    continue
+            writes = [(i, op) for i, op in enumerate(ops) if is_write(op)]
+            if writes:
                 classes.add('wellformed-write:' + ('bundled' if bundled else 'single'))
-                if op.get('unknown'):
-                    continue
-                if op.get('malformed'):
-                    judged = False      # service payload itself inconsistent (e.g. partial element): rejected below if it changed anything
-                    continue
-                exp = M.expect(mdl, op)
-                r = member_replies[i] if member_replies and i < len(member_replies) else None
-                if exp['kind'] == 'unspecified':
-                    state['unjudged'] = True
-                    judged = None
+            payload_malformed = [op for i, op in writes if op.get('malformed')]
+            # candidate end states: the model after the well-formed write members the simulator reports as done; when the
+            # request was answered with a failure as a whole (no member replies) any prefix of them may have been executed
+            candidates = []
+            base = mdl.copy()
+            applied = 0
+            unspecified = False
+            states = [base.snapshot()]
+            for i, op in writes:
+                if op.get('path_unspecified'):
+                    unspecified = True
                     break
-                if exp['kind'] in ('write', 'attr_write') and r is not None and r['status'] == 0:
-                    M.apply_write(mdl, exp)
-                    classes.add('write-applied')
-            if judged is None:
+                if op.get('unknown') or op.get('malformed'):
+                    continue
+                exp = M.expect(base, op)
+                if exp['kind'] == 'unspecified':
+                    unspecified = True
+                    break
+                if exp['kind'] not in ('write', 'attr_write'):
+                    continue
+                r = member_replies[i] if member_replies and i < len(member_replies) else None
+                if whole_failed:
+                    M.apply_write(base, exp)
+                    states.append(base.snapshot())
+                elif r is not None and r['status'] == 0:
+                    M.apply_write(base, exp)
+                    applied += 1
+            if unspecified:
+                state['unjudged'] = True
                 resync()
                 return
-            if after != mdl.snapshot():
-                diff = [n for n in after if after[n] != mdl.snapshot()[n]]
-                sig = 'wellformed-request-wrong-effect' if judged else 'executed-malformed-write:service-payload'
-                stats.fail('stream', sig, case,
-                           observed={'frame': frame.hex()[:400], 'outcome': outcome, 'tags': diff, 'impl': {n: after[n][:8] for n in diff},
-                                     'model': {n: mdl.snapshot()[n][:8] for n in diff}},
-                           expected='a well-formed request changes exactly what the typed-array model says; anything else changes nothing')
-                state['flagged'] = True
+            if whole_failed:
+                if after in states:
+                    if after != states[0]:
+                        classes.add('bundle-failed-as-a-whole-after-executing-members')
+                    resync()
+                    return
+                ok = False
+            else:
+                ok = after == base.snapshot()
+                if ok and applied:
+                    classes.add('write-applied')
+            if ok:
                 resync()
+                return
+            want = base.snapshot()
+            diff = [n for n in after if after[n] != want[n]]
+            if payload_malformed and not whole_failed:
+                sig = 'malformed-request-altered-tags:service-payload'
+            elif any(op is not None and op.get('malformed') and op.get('svc') is None for op in ops):
+                sig = 'malformed-request-altered-tags:member:' + [op['why'] for op in ops if op is not None and op.get('malformed') and op.get('svc') is None][0]
+            else:
+                sig = 'wellformed-request-wrong-effect'
+            stats.fail('stream', sig, case,
+                       observed={'frame': frame.hex()[:400], 'outcome': outcome, 'tags': diff, 'impl': {n: after[n][:8] for n in diff},
+                                 'model': {n: want[n][:8] for n in diff}},
+                       expected='a well-formed request changes exactly what the typed-array model says; anything else changes nothing')
+            state['flagged'] = True
+            resync()
 
         try:
             res = feed(dev, hostile, stream, bound, on_frame)
